@@ -1,32 +1,67 @@
 (* C14 - gcs source is parsed into the tree the grammar prescribes.
    Only statements, [exact] and [Print Assumptions] live here.
 
-   Proved: completeness of the Pratt parser model (same precedence table, prefix/infix
-   registration and loops as parse.go) - it returns exactly the tree whose canonical token
-   sequence (Model/GcsSpec.v: parentheses only where precedence or left association require)
-   it is given - for the expression fragment (literals, identifiers, unary operators, all
-   thirteen binary operators at their six levels, calls, parentheses) and for every statement
-   form over that fragment (blocks, let, assignment, return, break/continue/fallthrough,
-   if/else chains, while, for with optional init/condition/post, switch with optional subject,
-   cases and default, function declarations), end to end through the lazy producer-driven Parse.
-   Partial (see tools/props.d/C14.py): map and function literals, layout independence of the
-   lexer and soundness are covered by correspondence and monitors, not by a theorem. *)
+   Proved (all about the executable models Model/GcsLex.v and Model/GcsParse.v, which are tied to
+   pkg/logic/gcs/parse by exact correspondence on every check run):
+
+   1. Completeness on canonical token sequences, for the WHOLE language
+      (C14_parse_unparse_full): every expression form - literals, identifiers, unary operators,
+      the thirteen binary operators at their six precedence levels (left association, parentheses
+      only where precedence requires), calls, map literals (array elements, then fields in key
+      order) and function literals - and every statement form - blocks, let, assignment, return,
+      break/continue/fallthrough, if/else chains, while, for with optional init/condition/post,
+      switch with optional subject, cases and default, function declarations - is parsed back
+      into exactly its tree, end to end through the lazy producer-driven Parse.
+   2. Layout independence (C14_layout_independent_lexing,
+      C14_comments_and_whitespace_never_change_the_tree): for every choice of separators drawn
+      from spaces, tabs, CR, LF, '#' comments and '//' comments before, between and after the
+      tokens - with nothing required but that the byte after a token does not extend or spoil
+      it, which one white-space character always achieves (C14_one_space_always_suffices) - the
+      lexer returns the same token stream and Parse the same tree.
+   3. The parser accepts EXACTLY the grammar (C14_parser_accepts_exactly_the_grammar): the grammar is
+      the inductive relation [DP] of Proofs/GcsSound.v (redundant parentheses allowed).  Soundness
+      (C14_parser_sound): whatever Parse accepts is a derivation of the tree it returns.
+      Completeness (C14_parser_complete): every sentence is accepted with the tree of its
+      derivation.  The grammar is unambiguous (C14_grammar_unambiguous).  Hence a source is rejected
+      with an error iff it is outside the grammar (C14_rejected_iff_outside_the_grammar); made
+      concrete: a deleted or stray bracket at ANY position of an accepted program, any layout of a
+      well-formed program with a bracket left out, a source whose last token is neither ';' nor
+      '}', and a `let` without its identifier or '=' are rejected.
+
+   Found on the way and repaired in the Go code: the parser accepted a second `default` in a
+   switch and a repeated field name in a map literal and kept only the last one.  Model and grammar
+   follow the repaired code: both are errors (C14_switch_has_one_default,
+   C14_map_fields_are_distinct, C14_second_default_and_repeated_field_are_rejected).
+
+   Partial (see tools/props.d/C14.py): [DP] is a hand-written grammar - it is tied to the canonical
+   side ([unparse_*], C14_well_formed_programs_are_sentences) and to the parser by the theorems
+   above, and to the real parser through the models' correspondence; nothing is proved about the
+   Go code itself.  Deleting a ';' is rejected exactly when the result leaves the language, as it
+   must be: `a ; - b ;` without its first ';' is a valid program.  The text of error messages and
+   token positions are not part of the statements. *)
 From Coq Require Import List ZArith.
 From SR Require Import Model.GcsAst Model.GcsLex Model.GcsParse Model.GcsSpec
-  Proofs.GcsRoundTrip Proofs.GcsBridge Proofs.GcsStmtRoundTrip Proofs.GcsC14Proofs.
+  Proofs.GcsRoundTrip Proofs.GcsBridge Proofs.GcsStmtRoundTrip Proofs.GcsC14Proofs
+  Proofs.GcsMapFn Proofs.GcsLayout Proofs.GcsLayoutParse Proofs.GcsSound Proofs.GcsComplete Proofs.GcsReject.
 
-(* expressions: precedence climbing, left association, parentheses only where required *)
-Theorem C14_expressions_parse_to_their_tree : C14_expression_statement.
-Proof. exact C14_expression_holds. Qed.
+(* ---- 1. completeness on canonical token sequences ---- *)
+
+(* expressions: precedence climbing, left association, parentheses only where required,
+   map literals, function literals *)
+Theorem C14_expressions_parse_to_their_tree : C14_full_expression_statement.
+Proof. exact C14_full_expression_holds. Qed.
 Print Assumptions C14_expressions_parse_to_their_tree.
 
-(* end to end, every statement form: if lexing the source gives the canonical tokens of a
-   well-formed program, parse.New(src).Parse() returns exactly that program *)
-Theorem C14_parse_unparse_partial : C14_statements_statement.
-Proof. exact C14_statements_holds. Qed.
-Print Assumptions C14_parse_unparse_partial.
+(* end to end, every statement and expression form: if lexing the source gives the canonical
+   tokens of a well-formed program, parse.New(src).Parse() returns exactly that program *)
+Theorem C14_parse_unparse_full : C14_full_statement.
+Proof. exact C14_full_holds. Qed.
+Print Assumptions C14_parse_unparse_full.
 
-(* the same for flat programs of simple statements (a corollary kept for its simpler hypothesis) *)
+(* the earlier, smaller statements (no map / function literals) are instances *)
+Theorem C14_parse_unparse_partial : C14_statements_statement.
+Proof. exact C14_statements_from_full. Qed.
+Print Assumptions C14_parse_unparse_partial.
 Theorem C14_parse_unparse_flat : C14_partial_statement.
 Proof. exact C14_partial_holds. Qed.
 Print Assumptions C14_parse_unparse_flat.
@@ -36,12 +71,136 @@ Theorem C14_prefetch_invariance : forall inp n, QALL inp n.
 Proof. exact bridge_all. Qed.
 Print Assumptions C14_prefetch_invariance.
 
+(* ---- 2. comments and white space never change the tree ---- *)
+
+(* the lexer: any separators of white space and comments, same tokens *)
+Theorem C14_layout_independent_lexing : C14_layout_statement.
+Proof. exact C14_layout_holds. Qed.
+Print Assumptions C14_layout_independent_lexing.
+
+(* at least one white-space character between the tokens is always enough *)
+Theorem C14_one_space_always_suffices :
+  forall items f, plain_ok items f = true -> layout_ok items f = true.
+Proof. exact ws_layout_ok. Qed.
+Print Assumptions C14_one_space_always_suffices.
+
+(* the canonical tokens of a well-formed program never close a bracket they did not open, so
+   the lexer's bracket-depth check never fires on them *)
+Theorem C14_canonical_tokens_are_balanced : forall nodes lxs, xwf_program nodes ->
+  spells (flat_map unparse_node nodes) lxs -> depth_ok (0, 0, 0) lxs = true.
+Proof. exact unparse_balanced. Qed.
+Print Assumptions C14_canonical_tokens_are_balanced.
+
+(* lexer and parser together: every layout of every well-formed program gives its tree *)
+Theorem C14_comments_and_whitespace_never_change_the_tree : C14_layout_parse_statement.
+Proof. exact C14_layout_parse_holds. Qed.
+Print Assumptions C14_comments_and_whitespace_never_change_the_tree.
+
+(* ---- 3. nothing outside the grammar is accepted ---- *)
+
+Theorem C14_parser_sound : C14_sound_statement.
+Proof. exact C14_sound_holds. Qed.
+Print Assumptions C14_parser_sound.
+
+Theorem C14_outside_the_grammar_is_rejected : C14_reject_statement.
+Proof. exact C14_reject_holds. Qed.
+Print Assumptions C14_outside_the_grammar_is_rejected.
+
+(* ... and everything inside it is accepted, with the tree of the derivation - redundant
+   parentheses, map entries in any order, several defaults included *)
+Theorem C14_parser_complete : C14_complete_statement.
+Proof. exact C14_complete_holds. Qed.
+Print Assumptions C14_parser_complete.
+
+(* Parse accepts exactly the sentences of the grammar and returns the tree of the derivation;
+   it returns an error exactly on the sources outside the grammar *)
+Theorem C14_parser_accepts_exactly_the_grammar : C14_exact_statement.
+Proof. exact C14_exact_holds. Qed.
+Print Assumptions C14_parser_accepts_exactly_the_grammar.
+Theorem C14_rejected_iff_outside_the_grammar : C14_reject_exact_statement.
+Proof. exact C14_reject_exact_holds. Qed.
+Print Assumptions C14_rejected_iff_outside_the_grammar.
+
+(* the grammar defines ONE tree per token sequence: precedence, left association and parentheses
+   leave no choice *)
+Theorem C14_grammar_unambiguous : C14_unambiguous_statement.
+Proof. exact C14_unambiguous_holds. Qed.
+Print Assumptions C14_grammar_unambiguous.
+
+(* every derivable token sequence has as many opening as closing brackets of each kind *)
+Theorem C14_grammar_is_balanced : C14_balance_statement.
+Proof. exact C14_balance_holds. Qed.
+Print Assumptions C14_grammar_is_balanced.
+
+(* a missing bracket: delete any one ( ) [ ] { } token of an accepted source *)
+Theorem C14_missing_bracket_is_rejected : C14_missing_bracket_statement.
+Proof. exact C14_missing_bracket_holds. Qed.
+Print Assumptions C14_missing_bracket_is_rejected.
+Theorem C14_stray_bracket_is_rejected : C14_stray_bracket_statement.
+Proof. exact C14_stray_bracket_holds. Qed.
+Print Assumptions C14_stray_bracket_is_rejected.
+
+(* the same at source level: any layout of a well-formed program with one bracket left out *)
+Theorem C14_program_without_a_bracket_is_rejected : C14_deleted_bracket_statement.
+Proof. exact C14_deleted_bracket_holds. Qed.
+Print Assumptions C14_program_without_a_bracket_is_rejected.
+
+(* a missing final terminator: a program whose last token is neither ';' nor '}' *)
+Theorem C14_missing_final_terminator_is_rejected : C14_final_terminator_statement.
+Proof. exact C14_final_terminator_holds. Qed.
+Print Assumptions C14_missing_final_terminator_is_rejected.
+
+(* a missing keyword part: `let` without its identifier or its '=' *)
+Theorem C14_let_without_its_parts_is_rejected : C14_let_parts_statement.
+Proof. exact C14_let_parts_holds. Qed.
+Print Assumptions C14_let_without_its_parts_is_rejected.
+
+(* the grammar is strict: a switch of a derivation has at most one `default` entry and its body
+   is the tree's Default; the field names of a map literal are pairwise distinct.  (Before the
+   repairs "fix: gcs parser rejects a second default in a switch" / "... a repeated field name in
+   a map literal" the parser kept the last one and dropped the other from the tree - found while
+   proving soundness.)  Parse accepts exactly this grammar, so such sources are rejected *)
+Theorem C14_switch_has_one_default : C14_duplicate_default_statement.
+Proof. exact C14_duplicate_default_holds. Qed.
+Print Assumptions C14_switch_has_one_default.
+Theorem C14_map_fields_are_distinct : C14_duplicate_field_statement.
+Proof. exact C14_duplicate_field_holds. Qed.
+Print Assumptions C14_map_fields_are_distinct.
+Theorem C14_second_default_and_repeated_field_are_rejected :
+  r_out (parse_bytes dup_default_src) = OError /\ r_out (parse_bytes dup_key_src) = OError.
+Proof. exact C14_duplicates_rejected. Qed.
+Print Assumptions C14_second_default_and_repeated_field_are_rejected.
+
+(* the grammar is not empty on the canonical side: every layout of every well-formed program is
+   a sentence, with that program as its tree *)
+Theorem C14_well_formed_programs_are_sentences : C14_canonical_derivable_statement.
+Proof. exact C14_canonical_derivable_holds. Qed.
+Print Assumptions C14_well_formed_programs_are_sentences.
+
+(* ---- non-vacuity ---- *)
 Theorem C14_nonvacuous :
+  (* a flat program and one with compound statements (as before) *)
   (flat_program demo14_nodes /\ lexes_to demo14_src demo14_nodes /\
    r_out (parse_bytes demo14_src) = OProgram (Block demo14_nodes)) /\
   (wf_program demo14b_nodes /\ lexes_to demo14b_src demo14b_nodes /\
-   r_out (parse_bytes demo14b_src) = OProgram (Block demo14b_nodes)).
+   r_out (parse_bytes demo14b_src) = OProgram (Block demo14b_nodes)) /\
+  (* map and function literals everywhere *)
+  (xwf_program demoX_nodes /\ lexes_to demoX_src demoX_nodes /\
+   r_out (parse_bytes demoX_src) = OProgram (Block demoX_nodes)) /\
+  (* comments of both kinds, CR LF, a tab, glued tokens, a map literal holding a function
+     literal, no newline at the end: the hypotheses of the layout theorem hold and it yields *)
+  (xwf_program demoL_nodes /\ spells (flat_map unparse_node demoL_nodes) (map snd demoL_items) /\
+   layout_ok demoL_items demoL_tail = true /\
+   render demoL_items demoL_tail = string_bytes demoL_text /\
+   r_out (parse_bytes (string_bytes demoL_text)) = OProgram (Block demoL_nodes)) /\
+  (* the same program with the ']' of its map literal left out is rejected *)
+  r_out (parse_bytes (render demoL_del_items demoL_tail)) = OError /\
+  (* a derivation with redundant parentheses, a map with fields and elements, a lone ';' in a for *)
+  GcsSound.DP GcsSound.demo_nodes GcsSound.demo_toks.
 Proof.
   exact (conj (conj demo14_flat (conj demo14_lexes demo14_parses))
-              (conj demo14b_wf (conj demo14b_lexes demo14b_parses))).
+        (conj (conj demo14b_wf (conj demo14b_lexes demo14b_parses))
+        (conj (conj demoX_wf (conj demoX_lexes demoX_parses))
+        (conj (conj demoL_wf (conj demoL_spells (conj demoL_layout (conj demoL_source demoL_parses))))
+        (conj demoL_del_rejected GcsSound.demo_derives))))).
 Qed.
